@@ -57,6 +57,9 @@ def sharded_chain(
           f'sharded chain. got {len(args)=}, {len(state)=}'
       )
 
+    # A restored checkpoint (flax.serialization.from_bytes) holds NumPy leaves,
+    # whose promotion rules with Python scalars differ from JAX's.
+    state = jax.tree.map(jnp.asarray, state)
     new_state = []
     for s, fn in zip(state, args):
       updates, new_s = fn.update(updates, s, params)
